@@ -654,6 +654,14 @@ func srFillTable(c *srCase, op string, args [][]byte, tableAt int) []byte {
 	m := srModelStart()
 	var lines []string
 	have := map[string]bool{}
+	if len(args[tableAt]) > 0 { // start from the rows already there
+		for _, l := range strings.Split(string(args[tableAt]), "\n") {
+			if i := strings.LastIndex(l, "|"); i > 0 {
+				lines = append(lines, l)
+				have[l[:i]] = true
+			}
+		}
+	}
 	for round := 0; round < 400; round++ {
 		args[tableAt] = []byte(strings.Join(lines, "\n"))
 		out := m.call(op, args)
